@@ -150,6 +150,18 @@ Proof. rewrite map_map. apply map_ext. intros [[x s] b]. reflexivity. Qed.
 Lemma attrs_mirrored_refl : forall l, attrs_mirrored l l l = true.
 Proof. induction l as [|a l IH]; [reflexivity|]. cbn [attrs_mirrored]. rewrite toks_list_eqb_refl, IH. reflexivity. Qed.
 
+(** the delegation-target trait's methods carry the attributes of the analysed methods *)
+Lemma delegation_trait_defs_attrs a v tg fns subs deleg ds :
+  delegation_trait_defs a v tg fns subs = Ok deleg -> deleg = map ITrait ds ->
+  match ds with d :: _ => map fst (trait_sigs d) = map tf_attrs fns | [] => True end.
+Proof.
+  unfold delegation_trait_defs. destruct (ta_impl_trait a); [|intros H; injection H as <-; destruct ds; [trivial|discriminate]].
+  destruct (ta_delegate a) as [[|r|d]|]; intros H; try discriminate; injection H as <-; intros E;
+    (destruct ds as [|d0 ds']; [discriminate|]); cbn [map] in E; injection E as E0 _; subst d0;
+    unfold trait_sigs; cbn [t_items]; clear;
+    (induction fns as [|tf fns IH]; [reflexivity|]); cbn [map flat_map app fst map_sig tf_attrs]; f_equal; exact IH.
+Qed.
+
 (** ** the view the checker evaluates *)
 Lemma c18_view v attr i items :
   expand_items v attr i = Ok items -> good (view_C18 (mkCtx v attr i) items).
@@ -171,9 +183,14 @@ Proof.
     intros _. split; [reflexivity|].
     destruct (analyze_trait_items_spec _ _ Hf) as [Hsig _].
     pose proof (delegation_methods_spec _ _ _ _ Hm) as Hms.
-    rewrite trait_sigs_gen_trait_def, map_map. cbn [fst]. unfold impl_fns. cbn [i_items].
-    rewrite map_attr3, Hms, map_map. cbn [fst]. unfold trait_sigs. rewrite <- Hsig, map_map. cbn [fst].
-    apply attrs_mirrored_refl.
+    apply andb_true_intro; split.
+    + rewrite trait_sigs_gen_trait_def, map_map. cbn [fst]. unfold impl_fns. cbn [i_items].
+      rewrite map_attr3, Hms, map_map. cbn [fst]. unfold trait_sigs. rewrite <- Hsig, map_map. cbn [fst].
+      apply attrs_mirrored_refl.
+    + pose proof (delegation_trait_defs_attrs _ _ _ _ _ _ _ Hd Hds) as Hta.
+      unfold target_attrs_mirrored. destruct ds as [|d0 ds']; [reflexivity|].
+      rewrite Hta. unfold trait_sigs. rewrite <- Hsig, map_map. cbn [fst].
+      apply attrs_mirrored_refl.
   - destruct (expand_impl_inv _ _ _ _ _ _ _ _ _ H) as (_ & bitems & fl & a & fns0 & tg & mode & ib & Hs & Ha & Hz & _ & Hib & ->).
     cbv zeta in Hz, Hib.
     destruct (gen_impl_block_fns _ _ _ _ _ _ _ _ _ Hib) as (argss & Fa & Hfns & _ & Hattrs & _).
